@@ -2,6 +2,8 @@
 import binascii
 import math
 import re
+import shutil
+import tempfile
 import traceback
 from fractions import Fraction
 
@@ -13,7 +15,9 @@ RULE = ('strings of boundary lengths (0,1,2,254,255,...) and random lengths over
         '32767,32768,65536,1E10, halves and quarters that round) passed as %/!/# variables or literals; one case = '
         '(operation, argument values); non-trivial = at least one non-empty string or a non-zero number; every case runs '
         'in one long-lived Session (multi-step history: in-place chains on one target, scalar/array targets, '
-        'temporaries, FRE("") leak probes, stored programs with string literals)')
+        'temporaries, FRE("") leak probes, stored programs with string literals; LSET/RSET/MID$= between FIELD variables '
+        'laid over one random-file record buffer by several FIELD statements: whole record, parts, shifted parts, '
+        'aliases, expressions over overlapping fields)')
 EXPLANATION = ('theorems (PcbV.Props.C09): LEFT$/RIGHT$/MID$/INSTR/STRING$/SPACE$/LEN/ASC/CHR$/+/comparisons/MID$=/LSET/RSET '
                'equal their reference definitions for all strings and all integer arguments, error sets are exactly the '
                'out-of-range sets; correspondence: every case is executed in a real Session (execute/get_variable) and '
@@ -72,10 +76,10 @@ def literal(x):
 class Sess(object):
     """The real interpreter, driven through the public Session API."""
 
-    def __init__(self):
+    def __init__(self, **kw):
         from pcbasic.basic.base import error
         self.msg = {v: k for k, v in error.BASICError.messages.items()}
-        self.s = basic.new_session()
+        self.s = basic.new_session(**kw)
         self.nvar = 0
         self.s.execute(b'DIM T$(3)')
 
@@ -124,6 +128,25 @@ class Sess(object):
             return int(out.strip())
         except ValueError:
             return 'out %r' % out
+
+
+class FieldSess(Sess):
+    """A session with a private scratch drive, for random-access files and FIELD variables."""
+
+    def __init__(self):
+        self.tmp = tempfile.mkdtemp(prefix='pcbv_c09_')
+        try:
+            Sess.__init__(self, devices={'C': self.tmp}, current_device='C', max_reclen=255)
+        except Exception:
+            shutil.rmtree(self.tmp, ignore_errors=True)
+            raise
+
+    def close(self):
+        try:
+            self.run(b'CLOSE')
+            self.s.close()
+        finally:
+            shutil.rmtree(self.tmp, ignore_errors=True)
 
 
 # ---------------------------------------------------------------------------------------------
@@ -780,6 +803,243 @@ def program_history(ctx, se, nprog):
     se.s.execute(b'DIM T$(3)')
 
 
+
+# ---------------------------------------------------------------------------------------------
+# in-place statements whose source and target OVERLAP in memory: FIELD variables laid over one
+# random-file record buffer by several FIELD statements (whole record / parts / shifted parts / aliases).
+# Reference semantics (statement: "return the values of their reference definitions"): the VALUE of the
+# source expression is taken before anything is written; the target window receives the reference result
+# for that value, every other byte of the record is untouched.  Only a source that IS the target string
+# (same extent: MID$(A$,..)=A$ or an alias FIELDed over exactly the same bytes) copies byte by byte.
+
+def gen_layout(rng, L):
+    """FIELD statements over a record of L bytes -> (list of statements, {name: (offset, length)})"""
+    tab = {b'R$': (0, L)}
+    stmts = [b'FIELD #1,%d AS R$' % L]
+    widths_seen = []
+    for li in range(rng.choice([2, 3, 3, 4])):
+        kind = rng.choice(['equal', 'shift', 'random', 'random', 'alias'])
+        if kind == 'alias' and widths_seen:
+            widths = list(rng.choice(widths_seen))
+        elif kind == 'equal':
+            n = rng.choice([2, 3, 4])
+            widths = [L // n] * n
+        elif kind == 'shift':
+            first = rng.randrange(1, max(2, L // 3 + 1))
+            w = rng.choice([1, 2, max(1, L // 4), max(1, L // 3)])
+            widths = [first]
+            while sum(widths) + w <= L and len(widths) < 5:
+                widths.append(w)
+        else:
+            widths, left = [], L
+            while left > 0 and len(widths) < 5:
+                w = rng.choice([0, 1, 1, 2, 3, max(1, left // 2), left, rng.randrange(1, left + 1)])
+                w = min(w, left, 255)
+                widths.append(w)
+                left -= w
+        widths = [w for w in widths if w <= 255]
+        if not widths:
+            continue
+        widths_seen.append(widths)
+        off, parts = 0, []
+        for fi, w in enumerate(widths):
+            name = b'%c%d$' % (b'ABCD'[li], fi)
+            tab[name] = (off, w)
+            parts.append(b'%d AS %s' % (w, name))
+            off += w
+        stmts.append(b'FIELD #1,' + b','.join(parts))
+    return stmts, tab
+
+
+def src_value(src, rec, tab):
+    """value of a source expression for the record content `rec` (a snapshot)"""
+    def fld(n):
+        off, ln = tab[n]
+        return rec[off:off + ln]
+    if src[0] == 'f':
+        return fld(src[1])
+    if src[0] == 'tmp':
+        return fld(src[1])
+    if src[0] == 'cat':
+        return fld(src[1]) + fld(src[2])
+    if src[0] == 'midf':
+        return fld(src[1])[src[2] - 1:]
+    return src[1]   # ('var', bytes)
+
+
+def src_fields(src):
+    """names of the FIELD variables a source expression reads"""
+    return [] if src[0] == 'var' else [n for n in src[1:] if isinstance(n, bytes)]
+
+
+def src_text(src):
+    if src[0] == 'f':
+        return src[1]
+    if src[0] == 'tmp':
+        return src[1] + b'+""'
+    if src[0] == 'cat':
+        return src[1] + b'+' + src[2]
+    if src[0] == 'midf':
+        return b'MID$(' + src[1] + b',%d)' % src[2]
+    return b'V$'
+
+
+def gen_src(rng, tab, names):
+    k = rng.random()
+    if k < 0.55:
+        return ('f', rng.choice(names))
+    if k < 0.65:
+        return ('tmp', rng.choice(names))
+    if k < 0.8:
+        a, b = rng.choice(names), rng.choice(names)
+        if tab[a][1] + tab[b][1] <= 255:
+            return ('cat', a, b)
+        return ('f', a)
+    if k < 0.9:
+        a = rng.choice(names)
+        return ('midf', a, rng.randrange(1, min(255, tab[a][1] + 1) + 1))
+    return ('var', gen_bytes(rng, rng.choice([0, 1, 2, 5, 16, 255])))
+
+
+def field_step(ctx, se, L, stmts, tab, rec, op, tname, src, st, num, sink=None):
+    """Fill the record with `rec`, run one in-place statement, compare the whole record with the reference.
+    Returns the record content afterwards (as the implementation has it)."""
+    se.s.set_variable(b'V$', rec)
+    if se.run(b'LSET R$=V$') != 'ok' or se.get_str(b'R$') != rec:
+        raise SessionBroken('filling the record buffer with LSET R$=V$ failed')
+    if src[0] == 'var':
+        se.s.set_variable(b'V$', src[1])
+    toff, tlen = tab[tname]
+    tval = rec[toff:toff + tlen]
+    sval = src_value(src, rec, tab)
+    same = src[0] == 'f' and tab[src[1]] == tab[tname]
+    if op == 'midset':
+        a = [('s', tval), ('n', st, 'lit'), None if num is None else ('n', num, 'lit'), 'same' if same else ('s', sval)]
+        cmd = b'MID$(' + tname + b',%d' % st + (b'' if num is None else b',%d' % num) + b')=' + src_text(src)
+    else:
+        a = [('s', tval), ('s', sval)]
+        cmd = op.upper().encode() + b' ' + tname + b'=' + src_text(src)
+    status = se.run(cmd)
+    now = se.get_str(b'R$')
+    window = now[toff:toff + tlen]
+    out = ('ok ' + hexs(window)) if status == 'ok' else status
+    exp = oracle(op, a)
+    exp_rec = rec[:toff] + exp[1] + rec[toff + tlen:] if exp[0] == 'ok' else rec
+    tnow = se.get_str(tname)
+    what = None
+    if exp[0] == 'ok' and status != 'ok':
+        what = 'statement failed with %s' % status
+    elif exp[0] == 'err' and not (status.startswith('err ') and int(status.split()[1]) in exp[1]):
+        what = 'expected error %s, got %s' % (sorted(exp[1]), status)
+    elif now != exp_rec:
+        what = 'record is %r, expected %r' % (now, exp_rec)
+    elif len(now) != L or tnow != window:
+        what = 'target variable reads %r but its bytes in the record are %r (record length %d)' % (tnow, window, len(now))
+    sf = src_fields(src)
+    rel = ('same-extent' if sf and all(tab[n] == tab[tname] for n in sf) else
+           'overlap' if any(tab[n][0] < toff + tlen and toff < tab[n][0] + tab[n][1] for n in sf) else
+           'disjoint')
+    ctx.case(('field', op, L, tab[tname], src[0], tuple(tab[n] for n in sf), st, num, hexs(rec)[:8]))
+    ctx.count('field:' + op)
+    ctx.count('field-src:' + rel)
+    if what:
+        key = 'field:%s:%s:target%d+%d:source-%s%s' % (
+            op, rel, toff, tlen, src[0],
+            ''.join(':%d+%d' % tab[n] for n in sf))
+        ctx.fail(key, {'where': 'field', 'L': L, 'fields': [x.decode('latin-1') for x in stmts], 'record': hexs(rec),
+                       'var': hexs(src[1]) if src[0] == 'var' else None, 'cmd': cmd.decode('latin-1'),
+                       'expected_record': hexs(exp_rec), 'expected': 'ok' if exp[0] == 'ok' else sorted(exp[1])},
+                 '%s with record %r (%s): %s' % (cmd.decode('latin-1'), rec, '; '.join(x.decode('latin-1') for x in stmts), what))
+    if sink is not None:
+        sink[0].append((op, cmd.decode('latin-1')))
+        if src[0] == 'f' and len(now) == L:
+            # model of the record buffer with two windows: the WHOLE record is compared
+            soff, slen = tab[src[1]]
+            sink[1].append(('ok ' + hexs(now)) if status == 'ok' else status)
+            if op == 'midset':
+                sink[2].append('fmid %s %d %d %d %d %s %s' % (hexs(rec), toff, tlen, soff, slen, mval(a[1]), mval(a[2])))
+            else:
+                sink[2].append('flset %s %d %d %d %d %s' % (hexs(rec), toff, tlen, soff, slen, op[0]))
+        else:
+            sink[1].append(out)
+            sink[2].append(protocol_line(op, a))
+    return now
+
+
+def open_layout(se, L, stmts):
+    se.run(b'CLOSE')
+    for cmd in [b'OPEN "R",#1,"F.DAT",%d' % L] + list(stmts):
+        st = se.run(cmd)
+        if st != 'ok':
+            raise SessionBroken('%s gave %s' % (cmd.decode('latin-1'), st))
+
+
+def field_history(ctx, se, nlayouts, npairs, nsteps):
+    rng = ctx.rng
+    for _ in range(nlayouts):
+        L = rng.choice([1, 2, 3, 4, 8, 8, 12, 16, 16, 33, 64, 128, 254, 255])
+        stmts, tab = gen_layout(rng, L)
+        open_layout(se, L, stmts)
+        names = sorted(tab)
+        sink = ([], [], [])
+        # every kind of statement between pairs of overlaid variables, fresh record each time
+        pairs = [(t_, s_) for t_ in names for s_ in names]
+        rng.shuffle(pairs)
+        for t_, s_ in pairs[:npairs]:
+            rec = gen_bytes(rng, L)
+            for op in ('lset', 'rset'):
+                field_step(ctx, se, L, stmts, tab, rec, op, t_, ('f', s_), None, None, sink)
+            tl = tab[t_][1]
+            field_step(ctx, se, L, stmts, tab, rec, 'midset', t_, ('f', s_),
+                       rng.choice([1, 1, 2, max(1, tl), tl + 1, rng.randrange(1, tl + 2)]),
+                       rng.choice([None, None, 0, 1, 2, tl, 255]), sink)
+            # positions that make the written window start inside / just behind / just before the source window
+            d = tab[s_][0] - tab[t_][0]
+            cands = [p_ for p_ in (d + 2, d + 1 + max(1, tab[s_][1] // 2), d + tab[s_][1], d, d + 1) if 1 <= p_ <= tl]
+            if cands:
+                field_step(ctx, se, L, stmts, tab, rec, 'midset', t_, ('f', s_), rng.choice(cands),
+                           rng.choice([None, None, 255, tab[s_][1], max(1, tab[s_][1] - 1)]), sink)
+        # a history on one record: the result of each step is the input of the next
+        rec = gen_bytes(rng, L)
+        for i in range(nsteps):
+            if i % 5 == 4 or rec.strip(b' ') == b'':
+                rec = gen_bytes(rng, L)
+            t_ = rng.choice(names)
+            tl = tab[t_][1]
+            op = rng.choice(['lset', 'rset', 'midset'])
+            src = gen_src(rng, tab, names)
+            st = num = None
+            if op == 'midset':
+                st = rng.choice([1, 1, 2, max(1, tl), tl + 1, 0, rng.randrange(1, tl + 2)])
+                num = rng.choice([None, None, 0, 1, 2, tl, 255, 256])
+            rec = field_step(ctx, se, L, stmts, tab, rec, op, t_, src, st, num, sink)
+        ctx.compare(sink[0], sink[1], sink[2], label='field')
+    se.run(b'CLOSE')
+
+
+def field_replay(ctx, case):
+    """re-execute one recorded FIELD case: returns a description if the record still differs"""
+    se = FieldSess()
+    try:
+        open_layout(se, case['L'], [x.encode('latin-1') for x in case['fields']])
+        rec = b'' if case['record'] == '-' else binascii.unhexlify(case['record'])
+        se.s.set_variable(b'V$', rec)
+        se.run(b'LSET R$=V$')
+        if case.get('var') is not None:
+            se.s.set_variable(b'V$', b'' if case['var'] == '-' else binascii.unhexlify(case['var']))
+        status = se.run(case['cmd'].encode('latin-1'))
+        now = se.get_str(b'R$')
+        want = case['expected']
+        if want == 'ok' and status != 'ok':
+            return '%s gave %s' % (case['cmd'], status)
+        if want != 'ok' and not (status.startswith('err ') and int(status.split()[1]) in want):
+            return '%s gave %s, expected an error of %s' % (case['cmd'], status, want)
+        if hexs(now) != case['expected_record']:
+            return '%s: record is %r, expected %s' % (case['cmd'], now, case['expected_record'])
+        return None
+    finally:
+        se.close()
+
 # ---------------------------------------------------------------------------------------------
 
 def run_cases(ctx, se, cases, label):
@@ -797,7 +1057,7 @@ def run_cases(ctx, se, cases, label):
     ctx.compare([(op, show_args(a)) for op, a in cases], outs, lines, label=label)
 
 
-def guarded(ctx, box, phase, fn):
+def guarded(ctx, box, phase, fn, factory=None):
     """Run one phase; a host exception coming out of the interpreter (also through set_variable/get_variable)
     is an oracle failure of the history so far, after which a fresh session is used."""
     try:
@@ -813,7 +1073,7 @@ def guarded(ctx, box, phase, fn):
             box[0].close()
         except Exception:
             pass
-        box[0] = Sess()
+        box[0] = (factory or Sess)()
 
 
 def run(ctx):
@@ -842,6 +1102,14 @@ def run(ctx):
                              % (f, ctx.evaluations))
             guarded(ctx, box, 'space', space)
         guarded(ctx, box, 'program', lambda se: program_history(ctx, se, 60 if ctx.quick else 600))
+        # overlapping source/target: FIELD variables over one record buffer, in a session with a scratch drive
+        fbox = [FieldSess()]
+        try:
+            for _ in range(2 if ctx.quick else 20):
+                guarded(ctx, fbox, 'field', lambda se: field_history(
+                    ctx, se, 4, 16 if ctx.quick else 40, 30 if ctx.quick else 60), FieldSess)
+        finally:
+            fbox[0].close()
         guarded(ctx, box, 'leak', lambda se: leak_history(ctx, se, reps))
         se = box[0]
         ctx.sample({'op': 'midset', 'line': protocol_line('midset', [('s', b'12345678'), ('n', 4, '%'), None, 'same']),
@@ -861,6 +1129,9 @@ def replay(ctx, payload):
             out, extra = impl_case(se, case['op'], a)
             judge(sub, case['op'], a, out, extra)
             hits = sub.failures
+        elif case.get('where') == 'field':
+            what = field_replay(sub, case)
+            return what
         elif case.get('where') == 'leak':
             leak_history(sub, se, case.get('reps', 40))
             hits = [f for f in sub.failures if f['key'] == payload.get('key')]
